@@ -81,6 +81,39 @@ def err_enum(e):
     return f"err other:{type(e).__name__}:{s[:60]}"
 
 
+def relayout(a, layout):
+    """The same values in a different memory layout (what a caller may legitimately pass): a view into a larger
+    buffer with a stride, a reversed view, a column of a 2-d buffer, Fortran order / a transposed buffer for 2-d."""
+    a = np.asarray(a, dtype=float)
+    if layout == "contiguous" or a.size == 0:
+        return a.copy()
+    if a.ndim == 1:
+        if layout == "strided":
+            buf = np.full(2 * a.size + 1, 123.0)
+            buf[1::2] = a
+            return buf[1::2]
+        if layout == "reversed":
+            return a[::-1].copy()[::-1]
+        if layout == "column":
+            buf = np.full((a.size, 3), -7.0)
+            buf[:, 1] = a
+            return buf[:, 1]
+        return a.copy()
+    if layout == "fortran":
+        return np.array(a, order="F", copy=True)   # always a fresh buffer: simple_batch writes NaN into its input
+    if layout == "transposed":
+        return np.array(a.T, order="C", copy=True).T
+    if layout in ("strided", "column"):
+        buf = np.full((a.shape[0], 2 * a.shape[1]), 5.0)
+        buf[:, ::2] = a
+        return buf[:, ::2]
+    return a.copy()
+
+
+LAYOUTS_1D = ["contiguous", "contiguous", "strided", "reversed", "column"]
+LAYOUTS_2D = ["contiguous", "contiguous", "fortran", "transposed", "strided"]
+
+
 def nontrivial(a):
     a = np.asarray(a, dtype=float).ravel()
     return int(np.sum(~np.isnan(a))) >= 2
@@ -96,9 +129,10 @@ def case_randarg(ctx, lines, expect, a, which, axis, seed):
     a = np.asarray(a, dtype=float)
     rs = SpyRS(seed)
     kw = {} if axis is None else {"axis": axis}
+    layout = (LAYOUTS_1D if a.ndim == 1 else LAYOUTS_2D)[seed % 5]
     try:
         with np.errstate(all="ignore"):
-            res = fn(a.copy(), random_state=rs, **kw)
+            res = fn(relayout(a, layout), random_state=rs, **kw)
     except Exception as e:
         ctx.count("randarg_raised")
         return
@@ -151,10 +185,11 @@ def case_simple_batch(ctx, lines, expect, u, b, method, seed, int_seed=False):
 
     u = np.asarray(u, dtype=float)
     rs = SpyRS(seed)
-    case = dict(fn="simple_batch", u=u, batch_size=b, method=method, seed=seed)
+    layout = (LAYOUTS_1D if u.ndim == 1 else LAYOUTS_2D)[seed % 5]
+    case = dict(fn="simple_batch", u=u, batch_size=b, method=method, seed=seed, layout=layout)
     try:
         with np.errstate(all="ignore"):
-            idx, ut = simple_batch(u.copy(), random_state=rs, batch_size=b, return_utilities=True, method=method)
+            idx, ut = simple_batch(relayout(u, layout), random_state=rs, batch_size=b, return_utilities=True, method=method)
         impl_err = None
     except Exception as e:
         impl_err = err_enum(e)
@@ -188,6 +223,7 @@ def case_simple_batch(ctx, lines, expect, u, b, method, seed, int_seed=False):
     expect.append((impl, case))
     ctx.case(("sb", flat.tolist().__repr__(), u.shape, b, method, seed), nontrivial(u), sample=dict(case, result=impl[:120]))
     ctx.count(f"simple_batch_{method}_ndim{u.ndim}_" + ("ok" if impl_err is None else impl_err.replace(" ", "_")[:24]))
+    ctx.count(f"layout_{layout}")
     if impl_err is not None:
         return
     # property oracle -----------------------------------------------------------------------
